@@ -31,6 +31,15 @@ CLAIMED = {
     "C09": ("4 C09", "bounded exhaustive tables (built-ins x receivers x argument tuples; operators x operand kinds; @for clause subsets) + property-based testing (rapid) with an untyped program generator; oracle: no panic, returns, error line in range",
             "Exploration: every built-in name on receivers of every type with all argument tuples of length 0/1 and pairs over 19 boundary values; every operator on every ordered pair of operand kinds; @for with every subset of clauses absent; random untyped programs over data of every kind (nil pointers, nested unsupported values, invalid UTF-8).",
             "Trusted: recover()-based panic detection and the watchdog. Counts between 10^6 and 2^62 are not generated (memory exhaustion is not a decidable panic); MinInt64/MaxInt64 are.", "exploration"),
+    "C10": ("4 C10", "bounded exhaustive enumeration of literal contents over an escaping-hostile alphabet + property-based testing (rapid) over usage contexts, oracle: three-rule escape, round trip through unescaping, raw() identity",
+            "Exploration: every content of <= 2 (quick) / 3 (thorough) pieces from an alphabet of < > & ; # quotes backslashes ready-made entities and UTF-8 in both quote styles, printed and through raw(); random longer contents in 14 string-API contexts and 5 template-directory contexts (insert argument/block, component argument, slot body, raw() in a component).",
+            "Trusted: the three-rule escape written from the statement (& < > become entities, quotes stay). Contents ending in a backslash are not expressible as a literal and not generated.", "exploration"),
+    "C11": ("4 C11", "bounded exhaustive enumeration of small numeric domains + property-based testing (rapid) of random calls against per-function reference contracts; metamorphic purity check (observe, call, observe)",
+            "Exploration: slice/at/truncate/repeat/decimal over all small (len, start, end / index / count) tuples; all zero-argument functions on value pools; random calls with right and wrong argument kinds, receiver as literal and as data, results compared structurally through index/member access; purity of every array function incl. chained calls on nested data; valid UTF-8 in implies valid UTF-8 out; built-in wins over a custom function of the same name for every built-in name.",
+            "Trusted: checks/c11_ref_test.go (contracts from the statement; rune-based string functions, clamping slice, structural contains). Silent spots (negative counts, slice with start > end or negative end, missing required arguments, decimal on partly numeric strings) are executed but not asserted.", "exploration"),
+    "C12": ("4 C12", "property-based testing (rapid) with type-directed generation of Go values (run-time struct types via reflect.StructOf) and random access paths; differential against rendering the equal literal; deep-equality of the caller's data before/after",
+            "Exploration: values to depth 4 over all integer widths, float32/64 incl. NaN/Inf/extremes, arbitrary-byte strings, nil, pointers (nil, pointer to pointer), []T/[]any, map[string]T, structs (generated and hand-written with unexported/embedded/pointer fields) x random access paths in every spelling; 36 hand-written boundary shapes; unsupported kinds nested at any depth must fail the call; 20 mutating-looking templates must leave the caller's map deep-equal to an independent copy.",
+            "Trusted: lib/spec (builds the Go value and the model from one description), reflect.DeepEqual (cases containing NaN are not compared). Named scalar types and non-string-keyed maps are not generated (the statement lists types, not kinds).", "exploration"),
     "C13": ("4 C13", "property-based testing (rapid): single-fault injection into generated valid multi-line templates and template trees, expected line/file known by construction; plus an exhaustive table of fault forms x preceding multi-line token kinds",
             "Exploration: valid templates (reference interpreter says they render) with text/strings/comments/blocks/headers spanning lines before one single-line fault of each listed kind at a certainly-executed place; trees with page, layout and component for load-time and page-level faults. The reported line (and absolute path) must equal the line counted in the generated source.",
             "Trusted: the line is computed by counting newlines before a unique marker in the generated source (no lexer involved). The faulty construct is always written on one line, so 'the line its token ends on' is unambiguous; run-time faults inside layout/component files are not asserted (the statement only fixes the path for load-time faults and faults in the page).", "exploration"),
